@@ -39,7 +39,9 @@ _CSV = ["z", "y", "x", "zvec", "yvec", "xvec"]
 
 
 def k1_grids(rng, thorough):
-    return {}
+    from translator import specs as S
+    idx = [[i] for i in range(len(S.STR_TABLE))]
+    return {"toFileIsParquet": idx, "fromFileIsParquet": idx}
 
 
 def correspondence(rng, thorough):
